@@ -2,8 +2,13 @@ package main
 
 import (
 	"bufio"
+	"bytes"
+	"context"
 	"encoding/hex"
 	"fmt"
+	"github.com/cosmos/cosmos-sdk/client"
+	undcmd "github.com/unification-com/mainchain/cmd/und/cmd"
+	"io"
 	"math/big"
 	"os"
 	"strconv"
@@ -253,6 +258,28 @@ var keyAddr = map[string]func(sdk.AccAddress) []byte{
 	"str.recv":   streamtypes.GetStreamsByReceiverKey,
 }
 
+// runConvertCmd executes the cobra command behind `und convert` in process and returns what it prints after " = ".
+func runConvertCmd(amount, from, to string) (string, error) {
+	cmd := undcmd.GetDenomConversionCmd()
+	var buf bytes.Buffer
+	cctx := client.Context{}.WithOutput(&buf)
+	ctx := context.WithValue(context.Background(), client.ClientContextKey, &cctx)
+	cmd.SetContext(ctx)
+	cmd.SetOut(&buf)
+	cmd.SetErr(io.Discard)
+	cmd.SilenceUsage, cmd.SilenceErrors = true, true
+	cmd.SetArgs([]string{"--", amount, from, to})
+	if err := cmd.Execute(); err != nil {
+		return "", err
+	}
+	out := strings.TrimRight(buf.String(), "\n")
+	i := strings.LastIndex(out, " = ")
+	if i < 0 {
+		return "", fmt.Errorf("unexpected output %q", out)
+	}
+	return out[i+3:], nil
+}
+
 func need(f []string, n int) error {
 	if len(f) != n {
 		return fmt.Errorf("%s: want %d tokens, got %d", f[0], n, len(f))
@@ -439,9 +466,14 @@ func parseRequest(line string) (thunk, error) {
 		}
 		amount, from, to := strTok(f[1]), strTok(f[2]), strTok(f[3])
 		return func() string {
-			res, err := undtypes.ConvertUndDenomination(amount, from, to)
+			// through the node's conversion command (cmd/und/cmd), as a user runs it: `und convert <amount> <from> <to>`
+			res, err := runConvertCmd(amount, from, to)
 			if err != nil {
 				return "err"
+			}
+			// the library function underneath must agree with what the command prints
+			if lib, lerr := undtypes.ConvertUndDenomination(amount, from, to); lerr != nil || lib != res {
+				return "cli=" + outTok(res) + "/lib=" + outTok(lib)
 			}
 			return outTok(res)
 		}, nil
